@@ -1,11 +1,11 @@
 import RotondaModel.Model.BmpIo
 /-! Line driver for the BMP framing / read-loop model (C06). One case per input line.
 
-Case lines:  `frame|<items>|<valid>`  and  `sess|<items>|<valid>`
+Case lines:  `frame|<items>|<valid>`,  `sess|<items>|<valid>`  and  `fatal|<kind>` (the extracted table)
   items  = space separated: `x<hex>` a run of bytes, `z<n>` n zero bytes, `f.<kind>` a fault,
            `t` gate termination; `-` for the empty script
-  valid  = one char `0`/`1` per completely read frame, in order (`-` = none): what the real
-           `BmpMsg::from_octets` says about that frame
+  valid  = one char per completely read frame, in order (`-` = none): what the real
+           `BmpMsg::from_octets` does with that frame: `1` accepts, `0` rejects, `p` panics
 Args: `minlen=<n>` (the length guard detected on the real code; 0 = as written). -/
 open Rotonda.BmpIo
 
@@ -53,15 +53,15 @@ def parseItems (s : String) : Src :=
     | ['t'] => [.term]
     | _ => []
 
-def parseValid (s : String) : Nat → List Nat → Bool :=
-  let a := (s.toList.map (· == '1')).toArray
-  fun i _ => a.getD i false
+def parseValid (s : String) : Nat → List Nat → Verdict :=
+  let a := (s.toList.map fun c => if c == '1' then Verdict.accept else if c == 'p' then .crash else .reject).toArray
+  fun i _ => a.getD i .reject
 
 def showOutcome : Outcome → String
   | .frame bs => s!"ok {bs.length}"
   | .ioErr k => s!"io {kindName k}"
   | .parseErr => "parse"
-  | .panic => "panic"
+  | .panic _ => "panic"
   | .terminated => "term"
 
 def runCase (v : Variant) (line : String) : String :=
@@ -76,6 +76,7 @@ def runCase (v : Variant) (line : String) : String :=
     let fatal := match r.fin with | .fatal _ => 1 | _ => 0
     let fin := match r.fin with | .panicked => "panic" | .fuel => "fuel" | _ => "done"
     s!"ioerrs={countIoErrs r.evs - fatal} msgs={countMsgs r.evs} rest={r.rest.length} end={fin}"
+  | ["fatal", k] => s!"{isFatal (kindOf k)}"
   | _ => "bad-case"
 
 partial def mainLoop (v : Variant) (h : IO.FS.Stream) (out : IO.FS.Stream) : IO Unit := do
